@@ -84,13 +84,20 @@ static std::string scenario_write(int ncells) {
 // Interacting cells are outside the bit-identity clause (the order of the atomic additions is free), so the outcome is judged by what every order must respect: the contact forces
 // add up to zero and agree with the single-threaded run to rounding.  The same executions run under ThreadSanitizer: an unsynchronised access to a node shared by two cells is a race
 // in every schedule, whether or not this schedule loses the update.
-static std::vector<vec3> g_contact_ref;
+static std::vector<vec3> g_contact_ref; static long g_unwatched = 0;
 static std::string scenario_contact(int ncells) {
     std::vector<cell_ptr> L; auto mk = [&](double x, double y, double z, short type, unsigned id) { auto t = sc::make_cell_type(type, 3); t->surface_coupling_max_curvature_ = 1e30; for (auto& f : t->face_types_) { f.adherence_strength_ = 2.0; f.repulsion_strength_ = 3.0; } L.push_back(sc::make_cell(sc::translated(sc::icosphere(1), x, y, z), id, t, true)); };
     const bool springs = CONTACT_MODEL_INDEX == 0;   // the spring model repels epithelial cells too; the coupling models couple them, so there the neighbours are lumen cells
     mk(0, 0, 0, 0, 0); mk(1.85, 0.05, -0.02, springs ? 0 : 2, 1); if (ncells > 2) mk(0.92, 1.6, 0.03, springs ? 0 : 2, 2); if (ncells > 3) mk(0.9, 0.55, 1.6, 0, 3);     // mutually interpenetrating by less than the repulsion cut-off, so that nodes are repelled AND are vertices of repelled faces
     cx::prepare(L); global_simulation_parameters sp = sc::make_sim_params("unused", 0.3); sp.contact_cutoff_adhesion_ = 0.25; sp.contact_cutoff_repulsion_ = 0.25; cx::Model model(sp); cx::zero_forces(L);
+    // the lockset detector judges the accumulators the contact phase adds to from several threads: forces (all models), momenta and positions (the coupling models move coupled nodes)
+    if (vomp::lset_watch) { vomp::lset_watch(nullptr, 0); for (auto& c : L) for (node& n : c->node_lst_) { vomp::lset_watch(&n.force_, sizeof(vec3)); vomp::lset_watch(&n.pos_, sizeof(vec3));
+#if DYNAMIC_MODEL_INDEX == 0
+        vomp::lset_watch(&n.momentum_, sizeof(vec3));
+#endif
+    } }
     model.run(L);
+    if (vomp::lset_watch) { vomp::lset_watch(nullptr, 0); g_unwatched += vomp::lset_unwatched_conflicts(); }
     std::vector<vec3> F; vec3 net(0, 0, 0); double sumabs = 0, scale = 0; for (auto& c : L) for (node& n : c->node_lst_) { vec3 f = n.is_used_ ? n.force_ : vec3(0, 0, 0); F.push_back(f); net = net + f; sumabs += f.norm(); scale = std::max(scale, f.norm()); }
     for (auto& c : L) c->clear_data();
     if (!(sumabs > 0)) return "INTERNAL no contact force was produced (vacuous)";
@@ -160,6 +167,8 @@ static void explore(Result& R) {
             vomp::Explorer E; E.team = s.team; E.bound = b; E.scenario = s.scenario; E.deadline_s = std::max(5.0, (R.args.deadline * 0.9 - R.elapsed()) / 2); vomp::set_state_hash(s.hash);
             std::string first_err; std::vector<int> first_sched;
             E.judge = [&](const vomp::Execution& x) { std::string e; if (x.deadlock) e = "deadlock: no enabled thread while threads are unfinished"; else if (x.diverged) e = "INTERNAL schedule diverged while replaying a prefix"; else if (x.overflow || x.horizon) e = "INTERNAL trace overflow / horizon";
+                else if (!x.races.empty()) { std::string all = x.races; for (size_t p2 = 0; p2 < all.size();) { size_t q = all.find('\n', p2); if (q == std::string::npos) q = all.size(); if (q > p2) { std::string pair = all.substr(p2, std::min<size_t>(q - p2, 240)); R.tables["lockset_race_pairs"][pair]++;
+                        R.violation("lockset-race|" + pair, s.name + ", schedule " + vomp::Explorer::schedule_text(x.choices()) + ": two threads of one team access the same bytes between two team-wide synchronisations, at least one writes, not both atomically, no lock in common: " + pair, "sub=" + s.name + "\nteam=" + std::to_string(s.team) + "\nschedule=" + vomp::Explorer::schedule_text(x.choices()) + "\n"); } p2 = q + 1; } }
                 else if (s.judge) e = s.judge(x.outcome); else if (functional && x.outcome != s.reference) e = "result-differs-from-the-single-threaded-run: '" + x.outcome.substr(0, 200) + "' vs '" + s.reference.substr(0, 200) + "'";
                 if (!e.empty() && first_err.empty()) { first_err = e; first_sched = x.choices(); } };
             E.explore({});
@@ -175,6 +184,7 @@ static void explore(Result& R) {
     vomp::set_mode(vomp::MODE_SERIAL, 1); sw::cleanup_scratch();
     // race reports of the TSan build (every explored schedule is also race-checked: hand-offs are invisible to the sanitizer)
     collect_tsan(R);
+    if (vomp::lset_accesses) { R["lockset_detector_accesses_checked"] = vomp::lset_accesses(); R["lockset_detector_records_dropped"] = vomp::lset_dropped(); R["lockset_conflicts_on_bytes_outside_the_judged_accumulators(contact phase)"] = g_unwatched; }
     R["states"] = total_points; R["transitions"] = total_points; R["evaluations"] = total_exec; R["schedules"] = total_exec; R["distinct_nontrivial"] = total_switch; R["traces_validated_against_impl"] = total_exec; R["schedules_pruned_by_state_hash"] = total_pruned;
     R.strings["rule"] = "distinct_nontrivial = schedules (distinct choice sequences by construction) in which at least one decision departs from the default of letting the running thread continue; a schedule = a sequence of choices at the scheduling points of vomp (region start, critical/lock entry and exit, hooked loop bodies, thread exit); for every sub-check all schedules with 0, then 1, then 2 (...) preemptions are executed on the real code with a team of real threads of which one runs at a time; states/transitions = scheduling points visited; every complete execution is judged (equality with the single-threaded result, exception identity, exactly-once execution), replayed twice before a report";
     R.assumptions = {"scheduling granularity: OpenMP runtime entry points and the guarded H3 points; unsynchronised accesses between those points are the business of the TSan build (scheduler TU uninstrumented, hand-offs by raw futex)", "team sizes 1-3 (4 in the thorough tier), preemption bounds as listed per sub-check", "the sampling RNG is seeded per cell through the guarded seam (H2), so a division does not depend on which thread performs it"};
